@@ -173,6 +173,78 @@ def run(c: sym.Ctx, spec: Dict[str, Any], n_msgs: int = 1) -> Lab:
                     return finish(i)
                 finally:
                     lab.rec("task_end", i)
+        elif deps == "cm_acm":
+            import contextlib
+
+            @contextlib.contextmanager
+            def d_cm() -> Any:
+                lab.rec("dep_open", "m")
+                try:
+                    yield "m"
+                except BaseException as exc:  # noqa: BLE001
+                    lab.rec("dep_exc", "m", type(exc).__name__)
+                    raise
+                finally:
+                    lab.rec("dep_close", "m")
+
+            @contextlib.asynccontextmanager
+            async def d_acm() -> Any:
+                lab.rec("dep_open", "n")
+                try:
+                    yield "n"
+                except BaseException as exc:  # noqa: BLE001
+                    lab.rec("dep_exc", "n", type(exc).__name__)
+                    raise
+                finally:
+                    lab.rec("dep_close", "n")
+
+            async def target(i: int, m: str = TaskiqDepends(d_cm), nn: str = TaskiqDepends(d_acm), a: str = TaskiqDepends(d_a)) -> Any:  # type: ignore[misc]
+                lab.rec("task_start", i)
+                try:
+                    if outcome_of(i) == "timeout":
+                        await lab.gate(f"hang:{i}")
+                    return finish(i)
+                finally:
+                    lab.rec("task_end", i)
+        elif deps == "chain3":
+            def d_x() -> Any:
+                lab.rec("dep_open", "x")
+                try:
+                    yield "x"
+                except BaseException as exc:  # noqa: BLE001
+                    lab.rec("dep_exc", "x", type(exc).__name__)
+                    raise
+                finally:
+                    lab.rec("dep_close", "x")
+
+            async def d_y(x: str = TaskiqDepends(d_x)) -> Any:
+                lab.rec("dep_open", "y")
+                try:
+                    yield "y"
+                except BaseException as exc:  # noqa: BLE001
+                    lab.rec("dep_exc", "y", type(exc).__name__)
+                    raise
+                finally:
+                    lab.rec("dep_close", "y")
+
+            def d_z(y: str = TaskiqDepends(d_y), x: str = TaskiqDepends(d_x)) -> Any:
+                lab.rec("dep_open", "z")
+                try:
+                    yield "z"
+                except BaseException as exc:  # noqa: BLE001
+                    lab.rec("dep_exc", "z", type(exc).__name__)
+                    raise
+                finally:
+                    lab.rec("dep_close", "z")
+
+            async def target(i: int, z: str = TaskiqDepends(d_z)) -> Any:  # type: ignore[misc]
+                lab.rec("task_start", i)
+                try:
+                    if outcome_of(i) == "timeout":
+                        await lab.gate(f"hang:{i}")
+                    return finish(i)
+                finally:
+                    lab.rec("task_end", i)
         elif deps == "fail":
             async def target(i: int, a: str = TaskiqDepends(d_a), f: str = TaskiqDepends(d_f)) -> Any:  # type: ignore[misc]
                 lab.rec("task_start", i)
